@@ -1,3 +1,4 @@
+import AmVerif.Gen.Tables
 import AmVerif.Lemmas.IsoTok
 /-!
 # C07 — readers are isolated from reloads: guards pin values, no torn reads
@@ -281,5 +282,11 @@ example : ({ codeCfg 2 with wprog := [.inc, .setFlag, .acq .write, .copy, .rel] 
 example : logOk (run { codeCfg 1 with arm := [.notify, .update] } (init 0)
     [.tok 0, .send 0, .rl true, .rl true, .ret 0, .rl true, .rl true, .rl true]).log = false := by decide
 example : ({ codeCfg 1 with arm := [.notify, .update] } : Cfg).WF = false := by decide
+
+/-- The crate's own `Condvar::wait_while` (wrapper over std / parking_lot in `utils/private.rs`) re-checks its
+condition after every wake-up in both lock implementations: `Answers` shares one condition variable between all
+`hot_reload` callers and the reloader and wakes with `notify_all`, so the model's "a waiter proceeds only when its
+own condition holds" is this fact. -/
+theorem C07_wait_while_rechecks : waitWhileRechecksStd = true ∧ waitWhileRechecksParkingLot = true := by decide
 
 end AmVerif.Props.C07
